@@ -138,7 +138,7 @@ def run(ctx):
     for c in data['space']:
         if c['oracle'] and n_sp < 3:
             n_sp += 1
-            ctx.report('hyper:%s' % ('init' if 'initialised' in c['oracle'] else 'check_limits'), 'HyperSpace: ' + c['oracle'],
+            ctx.report('hyper:%s' % ('init' if 'initialised' in c['oracle'] else 'ctor-raises' if c['oracle'].startswith('HyperSpace(') else 'check_limits'), 'HyperSpace: ' + c['oracle'],
                        {'kind': 'space', 'case': c})
     n_run = 0
     for c in data['runs']:
